@@ -375,8 +375,8 @@ namespace vw
             if (tiny)
             {
                 // exact power-of-two scaling keeps the order relations of the field
-                static const int exps[] = { -40, -54, -60, -200, -1000 };
-                const int e = exps[r.below(5)];
+                static const int exps[] = { -40, -54, -60, -200, -1000, -1030, -1065 };  // the last two: sub-normal relief
+                const int e = exps[r.below(7)];
                 for (auto& v : f)
                     v = std::ldexp(v, e);
                 kind_out += 100;
@@ -897,6 +897,28 @@ namespace vw
             cur_route[i] = w.ops[i].mst_route;
         }
         std::vector<int> statuses = model_statuses(gs);
+        // a second grid of the same type but another geometry, queried in between: answers must not depend on
+        // what was asked of ANOTHER grid object either
+        GridSpec aux_spec = gs;
+        std::unique_ptr<G> aux_grid;
+        std::vector<int> aux_statuses;
+        if (gs.kind != G_TRIMESH && mode == MODE_C07)
+        {
+            aux_spec.overrides.clear();
+            if (gs.kind == G_PROFILE)
+                aux_spec.cols = gs.cols + 1;
+            else
+            {
+                std::swap(aux_spec.rows, aux_spec.cols);
+                std::swap(aux_spec.bs[0], aux_spec.bs[2]);
+                std::swap(aux_spec.bs[1], aux_spec.bs[3]);
+                std::swap(aux_spec.dx, aux_spec.dy);
+                if (aux_spec.rows == aux_spec.cols)
+                    aux_spec.cols += 1;
+            }
+            aux_grid = GridMaker<G>::make(aux_spec);
+            aux_statuses = model_statuses(aux_spec);
+        }
         std::size_t state_changes = 0;
         bool dirty_since_update = false;  // mask / base levels / parameters changed since the last update
         uint64_t salt = 1;
@@ -1500,7 +1522,33 @@ namespace vw
                     std::vector<MNeighbor> got;
                     std::string bad;
                     ++C["p.queries"];
+                    if (aux_grid)
+                    {
+                        // same flat index on the other grid first; its answer is judged against its own geometry
+                        const std::size_t aidx = idx % aux_grid->size();
+                        auto anb = aux_grid->neighbors(aidx);
+                        auto aind = aux_grid->neighbors_indices(aidx);
+                        std::vector<MNeighbor> am = model_neighbors(aux_spec, aux_statuses, aidx);
+                        std::vector<std::size_t> a1, a2;
+                        for (auto& q : am)
+                            a1.push_back(q.idx);
+                        for (auto& q : anb)
+                            a2.push_back(q.idx);
+                        std::sort(a1.begin(), a1.end());
+                        std::sort(a2.begin(), a2.end());
+                        bool same = a1 == a2 && aind.size() == anb.size();
+                        for (std::size_t k = 0; same && k < anb.size(); ++k)
+                            same = aind[k] == anb[k].idx;
+                        if (!same)
+                            bad = "second grid of the same type (other geometry): neighbours of node " + std::to_string(aidx) + " differ from its geometry";
+                        ++C["p.queries_on_second_grid"];
+                    }
                     // the library's own answers through the chosen accessor
+                    if (!bad.empty())
+                    {
+                        out.violation("c07", "c07:" + gname + ":second_grid", bad);
+                        break;
+                    }
                     std::size_t cnt = grid.neighbors_count(idx);
                     auto dists = grid.neighbors_distances(idx);
                     typename G::neighbors_indices_type ind;
